@@ -1,5 +1,5 @@
 CONSTANTS
-  Good <- MCGood3
+  Good <- MCGood3Six
   Bad <- MCBad3
   MaxOps = 6
   WithGet = FALSE
